@@ -199,7 +199,8 @@ def run_case(case):
     for p in chain:
         X = p(X)
     X = np.asarray(X)
-    data_all = np.asarray(model(sf_formula(v, np.arange(G, dtype='uint8')) if attack else sf_formula(v)))
+    # the oracle side always works on plain C-ordered copies (the layout handed over by the selection function is part of the subject's input)
+    data_all = np.ascontiguousarray(np.asarray(model(np.ascontiguousarray(sf_formula(v, np.arange(G, dtype='uint8')) if attack else sf_formula(v)))))
     # exact regime: choose a precision in which every accumulated sum is exact
     amax = float(np.max(np.abs(X))) if X.size else 0.0
     ymax = float(np.max(data_all)) if data_all.size else 1.0
